@@ -127,26 +127,140 @@ def _nested_ppt(k, rec_type, inst=0):
     return bytes(out)
 
 
+def _nested_ppt_lists(k, rec_type, persist_type=None, text_type=None):
+    """k SlideListWithText containers nested in each other; each level optionally starts with a SlidePersistAtom (so that the list
+    yields a slide) and a short text atom."""
+    import struct
+    inner = b""
+    for _ in range(k):
+        body = b""
+        if persist_type is not None:
+            body += struct.pack("<HHI", 0, persist_type, 0)
+        if text_type is not None:
+            body += struct.pack("<HHI", 0, text_type, 2) + b"hi"
+        body += inner
+        inner = struct.pack("<HHI", 0x000F, rec_type, len(body)) + body
+    return inner
+
+
 def amp_ppt():
     from sharepoint2text.parsing.extractors.ms_legacy import ppt_extractor as P
     k = 400
-    data = _nested_ppt(k, P.RT_SLIDE_LIST_WITH_TEXT)
-    copied = sum(len(r.data) for r in P._iter_records(data))
-    real = P._iter_records
-    count = [0]
+    variants = [(f"{k} nested SlideListWithText containers", _nested_ppt(k, P.RT_SLIDE_LIST_WITH_TEXT), k)]
+    persist, text = getattr(P, "RT_SLIDE_PERSIST_ATOM", None), getattr(P, "RT_TEXT_BYTES_ATOM", None)
+    if persist is not None:
+        variants.append((f"{k} nested SlideListWithText containers, each with a SlidePersistAtom", _nested_ppt_lists(k, P.RT_SLIDE_LIST_WITH_TEXT, persist), 2 * k))
+        if text is not None:
+            variants.append((f"{k} nested SlideListWithText containers, each with a SlidePersistAtom and a text atom",
+                             _nested_ppt_lists(k, P.RT_SLIDE_LIST_WITH_TEXT, persist, text), 3 * k))
+    last = (False, {}, "no variant amplifies")
+    for label, data, nrec in variants:
+        copied = sum(len(r.data) for r in P._iter_records(data))
+        real = P._iter_records
+        count = [0]
 
-    def counting(*a, **kw):
-        for r in real(*a, **kw):
-            count[0] += 1
-            yield r
-    P._iter_records = counting
-    try:
-        P._extract_slide_list_texts(data)
-    finally:
-        P._iter_records = real
-    bad = copied > 4 * len(data) or count[0] > 8 * k
-    return bad, {"builder": f"{k} nested SlideListWithText containers ({len(data)} bytes)"}, \
-        f"_iter_records copied {copied} bytes of record data; _extract_slide_list_texts visited {count[0]} records for {k} records in the stream"
+        def counting(*a, **kw):
+            for r in real(*a, **kw):
+                count[0] += 1
+                yield r
+        P._iter_records = counting
+        try:
+            P._extract_slide_list_texts(data)
+        finally:
+            P._iter_records = real
+        obs = f"_iter_records copied {copied} bytes of record data; _extract_slide_list_texts visited {count[0]} records for {nrec} records in the stream"
+        if copied > 4 * len(data) or count[0] > 8 * nrec:
+            return True, {"builder": f"{label} ({len(data)} bytes)"}, obs
+        last = (False, {"builder": label}, obs)
+    return last
+
+
+class CountingBytes(bytes):
+    """bytes whose slices are counted: a deterministic measure of "bytes copied out of the scanned buffer" (slices of slices count too)."""
+    copied = 0
+
+    def __getitem__(self, k):
+        r = bytes.__getitem__(self, k)
+        if isinstance(k, slice):
+            CountingBytes.copied += len(r)
+            return CountingBytes(r)
+        return r
+
+
+def _overlapping_records(k, pack_header, types, tail=64):
+    """k record headers 8 bytes apart, each of a picture type and each declaring a payload that reaches to the end of the stream
+    (payloads are not images): a scan that re-enters a declared record copies the rest of the stream once per header."""
+    total = 8 * k + tail
+    out = bytearray()
+    for j in range(k):
+        out += pack_header(0, types[j % len(types)], total - 8 * (j + 1))
+    out += bytes(tail)
+    return bytes(out)
+
+
+def amp_xls():
+    """Workbook stream scanned by _extract_images_from_workbook, handed in through a stand-in for olefile (the container format is not
+    what is under test) as CountingBytes."""
+    import types as _types
+    from sharepoint2text.parsing.extractors.ms_legacy import xls_extractor as X
+    fn = getattr(X, "_extract_images_from_workbook", None)
+    hdr = getattr(X, "_RECORD_HEADER", None)
+    blips = sorted(getattr(X, "BLIP_TYPES", ()) or ())
+    if fn is None or hdr is None or not blips:
+        return False, {}, "no _extract_images_from_workbook / record header / BLIP types"
+    meta = {getattr(X, n, None) for n in ("BLIP_TYPE_EMF", "BLIP_TYPE_WMF")}
+    plain = [t for t in blips if t not in meta] or blips
+    best = (False, {}, "no amplification")
+    for label, types in (("picture types that need a recognised payload", plain), ("all BLIP types", blips)):
+        for k in (1500,):
+            payload = _overlapping_records(k, hdr.pack, types)
+
+            class _Stream:
+                def read(self, *a):
+                    return CountingBytes(payload)
+
+            class _Ole:
+                def __init__(self, *a, **kw):
+                    pass
+
+                def __enter__(self):
+                    return self
+
+                def __exit__(self, *a):
+                    return False
+
+                def exists(self, name):
+                    return name == "Workbook"
+
+                def openstream(self, name):
+                    return _Stream()
+
+                def close(self):
+                    pass
+            fake = _types.SimpleNamespace(isOleFile=lambda *_a, **_k: True, OleFileIO=_Ole)
+            saved = {n: getattr(X, n) for n in ("olefile", "OleFileIO", "isOleFile") if hasattr(X, n)}
+            X.olefile = fake
+            if "OleFileIO" in saved:
+                X.OleFileIO = _Ole
+            if "isOleFile" in saved:
+                X.isOleFile = fake.isOleFile
+            CountingBytes.copied = 0
+            try:
+                imgs = fn(io.BytesIO(b"\xd0\xcf\x11\xe0\xa1\xb1\x1a\xe1" + bytes(1024)))
+            except Exception as e:  # noqa
+                best = (False, {}, f"{type(e).__name__}: {e}")
+                continue
+            finally:
+                for n, v in saved.items():
+                    setattr(X, n, v)
+                if "olefile" not in saved:
+                    del X.olefile
+            copied = CountingBytes.copied
+            obs = f"{copied} bytes copied out of a {len(payload)}-byte Workbook stream ({len(imgs)} images)"
+            if copied > 8 * len(payload):
+                return True, {"builder": f"{k} overlapping 8-byte record headers ({label}), each declaring a payload up to the end of the stream", "input_bytes": len(payload)}, obs
+            best = (False, {"input_bytes": len(payload)}, obs)
+    return best
 
 
 def _scaling(fn, make, n1, n2):
@@ -178,6 +292,40 @@ def amp_mbox():
         f"splitting {la} bytes took {a:.3f}s, {lb} bytes took {b:.3f}s (x{ratio:.1f} for x8 input)"
 
 
+RTF_BUILDERS = (
+    ("n nested groups", lambda n: "{\\rtf1 " + "{" * n + "x" + "}" * n + "}"),
+    ("n nested ignorable destinations", lambda n: "{\\rtf1 " + "{\\*\\foo " * n + "x" + "}" * n + "}"),
+    ("n unicode escapes", lambda n: "{\\rtf1 " + "\\u8364?" * n + "}"),
+    ("n hex escapes", lambda n: "{\\rtf1 " + "\\'e9" * n + "}"),
+    ("n control words", lambda n: "{\\rtf1 " + "\\b0 " * n + "}"),
+    ("n page breaks", lambda n: "{\\rtf1 " + "a\\page " * n + "}"),
+    ("one control word of n letters", lambda n: "{\\rtf1 \\" + "a" * n + " x}"),
+    ("n unterminated groups", lambda n: "{\\rtf1 " + "{\\b " * n),
+)
+
+
+def amp_rtf():
+    from sharepoint2text.parsing.extractors.ms_legacy import rtf_extractor as Rm
+    read = getattr(Rm, "read_rtf", None)
+    if read is None:
+        return False, {}, "no read_rtf"
+    worst = (False, {}, "no builder scales worse than linearly")
+    for label, build in RTF_BUILDERS:
+        def run(data):
+            try:
+                list(read(io.BytesIO(data), "a.rtf"))
+            except RecursionError:
+                pass
+            except Exception:  # noqa
+                pass
+        a, b, la, lb = _scaling(run, lambda n: build(n).encode("latin-1"), 3000, 24000)
+        ratio = b / max(a, 1e-6)
+        if ratio > 24 and b > 0.5:
+            return True, {"builder": f"RTF with {label}, n = 3000 and 24000"}, f"{la} bytes took {a:.3f}s, {lb} bytes took {b:.3f}s (x{ratio:.1f} for x8 input)"
+        worst = (False, {"builder": label}, f"x{ratio:.1f} for x8 input ({b:.3f}s)")
+    return worst
+
+
 def amp_xml():
     """An internal entity in a ZIP part: refused by defusedxml at any part size; an expanding parser multiplies it."""
     import io as _io
@@ -205,7 +353,7 @@ def amp_xml():
     return False, {}, "entity declarations are refused at both part sizes"
 
 
-AMPLIFIERS = (("_extract_png_images_from_bytes/amp-bounded#carve", amp_png), ("_extract_images_from_word_document/amp-bounded#carve", amp_dib),
+AMPLIFIERS = (("rtf_extractor.py::_RtfParser._strip_rtf_full_with_pages/amp-bounded#carve", amp_rtf), ("xls_extractor.py::_extract_images_from_workbook/amp-bounded#carve", amp_xls), ("_extract_png_images_from_bytes/amp-bounded#carve", amp_png), ("_extract_images_from_word_document/amp-bounded#carve", amp_dib),
               ("ppt_extractor.py::_iter_records/amp-bounded#carve", amp_ppt), ("ppt_extractor.py::*/amp-bounded#nested-scans", amp_ppt),
               ("mbox_email_extractor.py::*/amp-bounded#no-self-suffix", amp_mbox), ("policy#xml-parsed", amp_xml))
 
@@ -278,6 +426,52 @@ def limits_read_file():
     return None
 
 
+CANDIDATE_EXTENSIONS = ("txt", "md", "csv", "tsv", "json", "log", "html", "htm", "xml", "docx", "xlsx", "pptx", "docm", "xlsm", "pptm", "doc", "xls", "ppt", "rtf", "pdf",
+                        "odt", "ods", "odp", "odg", "odf", "epub", "eml", "msg", "mbox", "mhtml", "mht", "zip", "tar", "tar.gz", "tgz", "tar.bz2", "tbz2", "tar.xz",
+                        "txz", "gz", "bz2", "xz", "7z")
+
+
+def supported_extensions():
+    """Every file type read_file routes: a fixed candidate list plus whatever the router's own tables name, filtered by is_supported_file."""
+    import sharepoint2text
+    cands = list(CANDIDATE_EXTENSIONS)
+    try:
+        from sharepoint2text.parsing import router
+        for v in vars(router).values():
+            if isinstance(v, (dict, set, frozenset, list, tuple)):
+                for k in v:
+                    if isinstance(k, str) and 0 < len(k) < 12 and k.replace(".", "").isalnum():
+                        cands.append(k.lstrip("."))
+    except Exception:  # noqa
+        pass
+    out = []
+    for e in cands:
+        try:
+            if e not in out and sharepoint2text.is_supported_file("f." + e):
+                out.append(e)
+        except Exception:  # noqa
+            pass
+    return out
+
+
+def limits_file_types(size=3000):
+    """The whole-file limit does not depend on the file type: for every routed extension (documents, mail, archives and compressed
+    containers alike) a file above max_file_size is refused, one of exactly max_file_size is not refused for its size."""
+    import sharepoint2text
+    with tempfile.TemporaryDirectory() as d:
+        for ext in supported_extensions():
+            p = os.path.join(d, "f." + ext)
+            with open(p, "wb") as fh:
+                fh.write(bytes((i * 31 + 7) & 255 for i in range(size)))
+            for lim, want_too_large in ((size - 1, True), (1, True), (size, False), (0, False)):
+                got = _got(lambda: list(sharepoint2text.read_file(p, max_file_size=lim)))
+                if (got == "too-large") != want_too_large:
+                    return {"target": "sharepoint2text/__init__.py::read_file", "inputs": {"file": "f." + ext, "file_size": size, "max_file_size": lim, "content": "arbitrary bytes"},
+                            "expected": "ExtractionFileTooLargeError" if want_too_large else "no ExtractionFileTooLargeError (the size is within the limit / the check is disabled)",
+                            "observed": got}
+    return None
+
+
 def _sevenzip_spy():
     """Counts SevenZipFile constructions (whatever the import style of the caller)."""
     from sharepoint2text.parsing.extractors.util import sevenzip
@@ -338,7 +532,7 @@ def limit_values():
 
 
 def limits():
-    return limits_read_file() or limits_7z() or limit_values()
+    return limits_read_file() or limits_file_types() or limits_7z() or limit_values()
 
 
 def tar_links(limit=1000):
@@ -517,19 +711,149 @@ def _recorded_findings():
         return []
 
 
+# ------------------------------------------------------------ ZIP bomb classes --
+class _Unseekable(io.RawIOBase):
+    """A write-only stream without seek/tell: zipfile then writes *streamed* entries (general-purpose flag bit 3 + data descriptor),
+    the way LibreOffice, Java and web exporters do."""
+
+    def __init__(self):
+        super().__init__()
+        self.buf = bytearray()
+
+    def writable(self):
+        return True
+
+    def seekable(self):
+        return False
+
+    def write(self, b):
+        self.buf += bytes(b)
+        return len(b)
+
+
+def _patch_zip(data, name, flag_or=0, ext_attr_or=0):
+    """Set bits in the general-purpose flags (central directory and local header) / external attributes of the entry `name`."""
+    import struct
+    b = bytearray(data)
+    nm = name.encode()
+    pos = 0
+    while True:
+        i = b.find(b"PK\x01\x02", pos)
+        if i < 0:
+            break
+        nlen = struct.unpack_from("<H", b, i + 28)[0]
+        if bytes(b[i + 46:i + 46 + nlen]) == nm:
+            struct.pack_into("<H", b, i + 8, struct.unpack_from("<H", b, i + 8)[0] | flag_or)
+            struct.pack_into("<I", b, i + 38, struct.unpack_from("<I", b, i + 38)[0] | ext_attr_or)
+            lho = struct.unpack_from("<I", b, i + 42)[0]
+            if bytes(b[lho:lho + 4]) == b"PK\x03\x04":
+                struct.pack_into("<H", b, lho + 6, struct.unpack_from("<H", b, lho + 6)[0] | flag_or)
+        pos = i + 4
+    return bytes(b)
+
+
+def _bomb_documents(n, incompressible=0):
+    """(format, file name, bomb part, [(part name, bytes)]) -- the main content part carries one text run of n bytes (plus
+    `incompressible` pseudo-random letters, to place the compression ratio between the guard's limits)."""
+    import random
+    rnd = random.Random(12)
+    A = "A" * n + "".join(rnd.choice("abcdefghijklmnopqrstuvwxyzABCDEFGHIJKLMNOPQRSTUVWXYZ0123456789") for _ in range(incompressible))
+    odf_manifest = '<?xml version="1.0"?><manifest:manifest xmlns:manifest="urn:oasis:names:tc:opendocument:xmlns:manifest:1.0"/>'
+    odt = (f'<?xml version="1.0"?><office:document-content {NS}><office:body><office:text><text:p>{A}</text:p></office:text></office:body></office:document-content>')
+    yield "odt", "a.odt", "content.xml", [("mimetype", "application/vnd.oasis.opendocument.text"), ("content.xml", odt), ("META-INF/manifest.xml", odf_manifest)]
+    ods_rows = f'<table:table-row>{cell(A)}</table:table-row>'
+    ods_c = (f'<?xml version="1.0"?><office:document-content {NS}><office:body><office:spreadsheet><table:table table:name="S">{ods_rows}</table:table>'
+             f'</office:spreadsheet></office:body></office:document-content>')
+    yield "ods", "a.ods", "content.xml", [("mimetype", "application/vnd.oasis.opendocument.spreadsheet"), ("content.xml", ods_c), ("META-INF/manifest.xml", odf_manifest)]
+    W = "http://schemas.openxmlformats.org/wordprocessingml/2006/main"
+    docx = f'<?xml version="1.0"?><w:document xmlns:w="{W}"><w:body><w:p><w:r><w:t>{A}</w:t></w:r></w:p></w:body></w:document>'
+    ct = ('<?xml version="1.0"?><Types xmlns="http://schemas.openxmlformats.org/package/2006/content-types"><Default Extension="rels" '
+          'ContentType="application/vnd.openxmlformats-package.relationships+xml"/><Default Extension="xml" ContentType="application/xml"/>'
+          '<Override PartName="/word/document.xml" ContentType="application/vnd.openxmlformats-officedocument.wordprocessingml.document.main+xml"/></Types>')
+    rels = ('<?xml version="1.0"?><Relationships xmlns="http://schemas.openxmlformats.org/package/2006/relationships"><Relationship Id="rId1" '
+            'Type="http://schemas.openxmlformats.org/officeDocument/2006/relationships/officeDocument" Target="word/document.xml"/></Relationships>')
+    yield "docx", "a.docx", "word/document.xml", [("[Content_Types].xml", ct), ("_rels/.rels", rels), ("word/document.xml", docx)]
+
+
+def _write_zip(parts, method=zipfile.ZIP_DEFLATED, streamed=False, first=None):
+    import warnings
+    sink = _Unseekable() if streamed else io.BytesIO()
+    with warnings.catch_warnings():
+        warnings.simplefilter("ignore")
+        with zipfile.ZipFile(sink, "w", method) as z:
+            for name, data in parts:
+                if first is not None and name == first[0]:
+                    z.writestr(name, first[1])        # a small record of the same name in front of the bomb
+                z.writestr(name, data, compress_type=zipfile.ZIP_STORED if name == "mimetype" else method)
+    return bytes(sink.buf) if streamed else sink.getvalue()
+
+
+def zip_bomb_classes(n=6_000_000, ratio_limit=200):
+    """ZIP-based documents whose content part is a deflate bomb (compression ratio far above the documented guard limits), written
+    in every way the container format offers.  Each must be refused; one that is accepted, decompressed and parsed is a measured
+    amplification (characters of text per byte of input above the guard's own total-ratio limit)."""
+    import sharepoint2text
+    variants = [("plain deflated entry", dict(), None), ("streamed entries (flag bit 3 + data descriptor, as written to a non-seekable stream)", dict(streamed=True), None)]
+    for bit, what in ((0x0008, "flag bit 3 set, no descriptor"), (0x0800, "flag bit 11 (UTF-8 name)"), (0x0002, "flag bit 1"), (0x0004, "flag bit 2"), (0x0006, "flag bits 1+2"),
+                      (0x0020, "flag bit 5"), (0x2000, "flag bit 13")):
+        variants.append((f"entry header with {what}", dict(), dict(flag_or=bit)))
+    variants.append(("bomb entry carrying the MS-DOS directory attribute", dict(), dict(ext_attr_or=0x10)))
+    variants.append(("bomb entry carrying the unix directory mode", dict(), dict(ext_attr_or=(0o040755 << 16))))
+    for m, what in ((zipfile.ZIP_BZIP2, "bzip2"), (zipfile.ZIP_LZMA, "lzma")):
+        variants.append((f"{what}-compressed bomb entry", dict(method=m), None))
+    variants.append(("a small record of the same name in front of the bomb", dict(first=True), None))
+    docs = [(d, variants) for d in _bomb_documents(n)]
+    # a part whose ratio lies between the per-entry limit (500) and the total limit (200): only the total-ratio rule refuses it
+    docs += [(d, [("content part at a compression ratio of about 300 (below the per-entry limit, above the total limit)", dict(), None),
+                  ("the same, written as streamed entries", dict(streamed=True), None)]) for d in _bomb_documents(n, incompressible=n // 260)]
+    for (fmt, fname, bomb_part, parts), vs in docs:
+        try:
+            reader = sharepoint2text.get_extractor(fname)
+        except Exception:  # noqa
+            continue
+        for label, wkw, patch in vs:
+            wkw = dict(wkw)
+            if wkw.pop("first", None):
+                wkw["first"] = (bomb_part, "<x/>")
+            try:
+                data = _write_zip(parts, **wkw)
+            except Exception:  # noqa  (compression method not available)
+                continue
+            if patch:
+                data = _patch_zip(data, bomb_part, **patch)
+            try:
+                res = list(reader(io.BytesIO(data), fname))
+                chars = sum(len(r.get_full_text()) for r in res)
+                got = f"accepted: {chars} characters of text"
+            except Exception as e:  # noqa
+                chars, got = 0, type(e).__name__
+            if chars > ratio_limit * len(data):
+                return {"reproduced": True, "target": f"read_{fmt} via util/zip_bomb guard",
+                        "inputs": {"format": fmt, "class": label, "file_bytes": len(data), "bomb_part": bomb_part, "uncompressed_part_bytes": n},
+                        "expected": f"refused (ExtractionZipBombError): the part inflates to more than {ratio_limit} times the file",
+                        "observed": f"{got} from a {len(data)}-byte file ({chars // max(len(data), 1)} characters per input byte)"}
+    return None
+
+
 def native_scope(which):
     """Directed native scopes that run on every check (BOUNDED obligations of the pack)."""
     import sys as _sys
     _sys.path.insert(0, os.path.dirname(os.path.abspath(__file__)))
     import archive_probe
     if which == "explicit-limits":
-        for fn in (limits_read_file, limits_7z, limit_values, archive_probe.oversize_members, member_boundary, tar_links, entry_limit):
+        for fn in (limits_read_file, limits_file_types, limits_7z, limit_values, archive_probe.oversize_members, member_boundary, tar_links, entry_limit):
             r = fn()
             if r is not None:
                 r["reproduced"] = True
                 return r
         return {"reproduced": False, "note": "read_file / 7z / per-member / per-entry limits hold at their boundaries (files of 100, 5000, 70000 bytes, symlinks, "
                                              "the 7z fixture, zip/tar layouts with oversize, same-name and link members)"}
+    if which == "zip-bomb-classes":
+        r = zip_bomb_classes()
+        if r is not None:
+            return r
+        return {"reproduced": False, "note": "odt / ods / docx with a 6 MB deflate-bomb content part in 14 container variants (streamed entries, header flag bits, "
+                                             "directory attributes, bzip2 / lzma, duplicate names): all refused"}
     if which == "repeat-attribute-classes":
         rec = {f["id"] for f in _recorded_findings()}
         ok, inputs, obs = repeat_classes(set(), rec)
@@ -565,7 +889,7 @@ def find(req):
 
     # ---- explicit limits
     if generic or "read_file" in ob:
-        r = hit(limits_read_file())
+        r = hit(limits_read_file() or limits_file_types())
         if r:
             return r
     if generic or ("_extract_from_7z_optimized" in ob and "policy#" not in ob):
@@ -575,6 +899,10 @@ def find(req):
     if generic or "documented-values" in ob or "limits/" in ob:
         r = hit(limit_values())
         if r:
+            return r
+    if generic or "zip_bomb" in ob or "validate_zipfile" in ob or "open_zipfile" in ob:
+        r = zip_bomb_classes()
+        if r is not None:
             return r
     # ---- per-member limits
     if generic or "member-size-check" in ob or "_extract_from_zip_optimized" in ob or "_extract_from_tar_optimized" in ob:
